@@ -49,6 +49,9 @@ type driver struct {
 	burned      []sdkmath.Int // model: coin-pair tokens burned by holders, per depth
 	atestSupply sdkmath.Int
 	lastBurned  string // model state after the latest operation (part of the state digest)
+	// via, if set, names the kinds of earlier operations on the token in a path: part of the
+	// signature of an invariant breach, so that the same breach reached another way is another finding
+	via func(t token, p []string) string
 }
 
 var unit = new(big.Int).Exp(big.NewInt(10), big.NewInt(18), nil)
@@ -187,7 +190,11 @@ func pick(cls string, base sdkmath.Int) sdkmath.Int {
 }
 
 func (d *driver) viol(res *engine.Result, t token, op, breach, what string, p []string, detail map[string]any) {
-	res.AddViolation(engine.Violation{Signature: fmt.Sprintf("C10|pair=%s|token=%s|op=%s|breach=%s", t.origin, t.name, op, breach), What: what, Path: p, Detail: detail})
+	sig := fmt.Sprintf("C10|pair=%s|token=%s|op=%s|breach=%s", t.origin, t.name, op, breach)
+	if d.via != nil && op == "inv" {
+		sig += "|via=" + d.via(t, p)
+	}
+	res.AddViolation(engine.Violation{Signature: sig, What: what, Path: p, Detail: detail})
 }
 
 type view struct{ coinS, coinR, tokS, tokR, supplyCoin, modTok, modCoin, totTok sdkmath.Int }
@@ -412,24 +419,26 @@ func Worker(shard, n int, tier string) *engine.Result {
 	e := &engine.Explorer{W: d.w, Res: res, Stores: []string{"bank", "erc20", "evm"}, Ops: d.ops, Invariant: d.invariant, MaxDepth: bounds(tier),
 		Shard: shard, NShards: n, Deadline: time.Now().Add(25 * time.Minute), Extra: func(w *world.World) string { return d.lastBurned }}
 	e.Run()
-	// part B: IBC legs
-	di := newIBCDriver(tier)
-	sub := engine.NewResult(Prop)
-	depthB := 4
-	if tier == "thorough" {
-		depthB = 5
+	// part B: IBC legs; B1 over the well-behaved pairs, B2 over the misbehaving tokens
+	for bi, rogue := range []bool{false, true} {
+		di := newIBCDriver(tier, rogue)
+		sub := engine.NewResult(Prop)
+		depthB := 4
+		if tier == "thorough" {
+			depthB = 5
+		}
+		eb := &engine.Explorer{W: di.w, Res: sub, Stores: []string{"bank", "erc20", "evm", "ibc", "transfer"}, Ops: di.ops, Invariant: di.invariant, MaxDepth: depthB,
+			Shard: shard, NShards: n, Deadline: time.Now().Add(25 * time.Minute), Extra: func(w *world.World) string {
+				return di.lastBurned + "|" + di.lastPend + "|" + fmt.Sprint(w.Header.Time.Unix())
+			}}
+		eb.Run()
+		res.Counters[fmt.Sprintf("partB%d_transitions", bi+1)] += int64(sub.Transitions)
+		for k, v := range sub.States {
+			res.States[fmt.Sprintf("B%d|%s", bi+1, k)] = v
+		}
+		sub.States = map[string]int{}
+		res.Merge(sub)
 	}
-	eb := &engine.Explorer{W: di.w, Res: sub, Stores: []string{"bank", "erc20", "evm", "ibc", "transfer"}, Ops: di.ops, Invariant: di.invariant, MaxDepth: depthB,
-		Shard: shard, NShards: n, Deadline: time.Now().Add(25 * time.Minute), Extra: func(w *world.World) string {
-			return di.lastBurned + "|" + di.lastPend + "|" + fmt.Sprint(w.Header.Time.Unix())
-		}}
-	eb.Run()
-	res.Counters["partB_transitions"] += int64(sub.Transitions)
-	for k, v := range sub.States {
-		res.States["B|"+k] = v
-	}
-	sub.States = map[string]int{}
-	res.Merge(sub)
 	return res
 }
 
